@@ -150,6 +150,8 @@ type world struct {
 	// replies of earlier raw forwards / extensions, as handed out and as they were at that moment: what a caller
 	// got back is the caller's, a later call does not rewrite it
 	kept []keptReply
+	// lifetimeAsked: some operation of the history asked for a lifetime constraint
+	lifetimeAsked bool
 }
 
 const critName = "touchless-sudo-hosts"
@@ -701,8 +703,18 @@ func (w *world) step(i int, op Op) error {
 		return nil
 	}
 	if op.Kind == "idle" {
+		before := w.ring()
 		time.Sleep(time.Duration(op.IdleMS) * time.Millisecond)
+		after := w.ring()
+		// nothing was asked of anybody: what the underlying agent holds can only shrink by a lifetime constraint,
+		// and this history has not asked for one
+		if !w.lifetimeAsked && !sameBlobs(before, after) {
+			return Errf("%s: while nothing happened for %d ms the underlying agent went from %s to %s, although no identity of this history was added with a lifetime", where, op.IdleMS, describe(blobsOf(before)), describe(blobsOf(after)))
+		}
 		return nil
+	}
+	if op.Lifetime > 0 {
+		w.lifetimeAsked = true
 	}
 	if op.Kind == "open" {
 		if w.hasOpening && !w.opened {
